@@ -698,6 +698,7 @@ pub fn render_glue(p: &Program, o: &RenderOpts) -> String {
     // remote helpers (C10)
     render_helpers(p, o, &mut s);
     render_reply_glue(p, o, &mut s);
+    render_mt_glue(p, o, &mut s);
     // entry points + multitest Contract impl
     if p.contract.entry_points {
         let mut eps = vec![Kind::Instantiate, Kind::Exec, Kind::Query, Kind::Sudo];
@@ -892,4 +893,94 @@ fn render_reply_glue(p: &Program, o: &RenderOpts, s: &mut String) {
         writeln!(s, "            }};").unwrap();
         writeln!(s, "            vp_r_.map(|m| svrt::j(&m)).map_err(|e| e.to_string())\n        }})));").unwrap();
     }
+}
+
+/// Glue for C12: typed multitest proxy calls.
+fn render_mt_glue(p: &Program, o: &RenderOpts, s: &mut String) {
+    if !p.contract.entry_points || p.contract.replies || !p.contract.overrides.is_empty() {
+        return;
+    }
+    let sv = &o.sv;
+    let (c, q) = (c_ty(p), q_ty(p));
+    let gens = conc_names(&p.contract.generics);
+    let gen_args: String = gens.iter().map(|g| format!("{g}, ")).collect();
+    let app = format!("{sv}::cw_multi_test::BasicApp<{c}, {q}>");
+    let proxy = format!("{sv}::multitest::Proxy<'_, {app}, CtrC>");
+    writeln!(s, "        b.extra(\"mt_world\", svrt::MtFactory(Box::new(|vp_bal_| {{").unwrap();
+    writeln!(s, "            let mut g = svrt::MtGlue::<{c}, {q}> {{").unwrap();
+    let migrate = p.has_kind(0, Kind::Migrate);
+    writeln!(
+        s,
+        "                raw_contract: Box::new(|| Box::new({sv}::cw_multi_test::ContractWrapper::new(entry_points::execute, entry_points::instantiate, entry_points::query).with_sudo(entry_points::sudo){})),",
+        if migrate { ".with_migrate(entry_points::migrate)" } else { "" }
+    )
+    .unwrap();
+    writeln!(s, "                store: Box::new(|vp_app_| sv::mt::CodeId::<CtrC, {app}>::store_code(vp_app_).code_id()),").unwrap();
+    // instantiate
+    let inst = p.handlers().into_iter().find(|h| h.kind == Kind::Instantiate).expect("instantiate");
+    writeln!(s, "                instantiate: Box::new(|vp_app_, vp_args_, vp_o_, vp_sender_| {{").unwrap();
+    for (n, a) in inst.args.iter().enumerate() {
+        writeln!(s, "                    let {}: {} = svrt::arg(vp_args_, {n}).map_err(svrt::harness_err)?;", a.name, a.ty.rust(&gens, &[])).unwrap();
+    }
+    let vals: Vec<String> = inst.args.iter().map(|a| a.name.clone()).collect();
+    writeln!(s, "                    let vp_code_ = sv::mt::CodeId::<CtrC, {app}>::store_code(vp_app_);").unwrap();
+    writeln!(s, "                    let vp_id_ = vp_code_.code_id();").unwrap();
+    writeln!(s, "                    let mut vp_ip_ = vp_code_.instantiate({});", vals.join(", ")).unwrap();
+    writeln!(s, "                    if let Some(l) = &vp_o_.label {{ vp_ip_ = vp_ip_.with_label(l); }}").unwrap();
+    writeln!(s, "                    if let Some(a) = &vp_o_.admin {{ vp_ip_ = vp_ip_.with_admin(a.as_str()); }}").unwrap();
+    writeln!(s, "                    if let Some(f) = &vp_o_.funds {{ vp_ip_ = vp_ip_.with_funds(f); }}").unwrap();
+    writeln!(s, "                    if let Some(x) = &vp_o_.salt {{ vp_ip_ = vp_ip_.with_salt(x.as_slice()); }}").unwrap();
+    writeln!(s, "                    vp_ip_.call(vp_sender_).map(|p| (vp_id_, p.contract_addr)).map_err(|e| svrt::ErrView::view(&e))").unwrap();
+    writeln!(s, "                }}),").unwrap();
+    writeln!(s, "                exec: Default::default(), query: Default::default(), sudo: Default::default(), migrate: None,").unwrap();
+    writeln!(s, "            }};").unwrap();
+    for h in p.handlers() {
+        let assoc_conc: Vec<String> = if h.part == 0 { vec![] } else { conc_names(&p.interfaces[h.part - 1].assoc) };
+        let tr = if h.part == 0 {
+            format!("sv::mt::CtrProxy<'_, {gen_args}{app}>")
+        } else {
+            let i = &p.interfaces[h.part - 1];
+            format!("{}::sv::mt::{}Proxy<{app}, {c}>", i.module, i.trait_name)
+        };
+        let mut decode = String::new();
+        for (n, a) in h.args.iter().enumerate() {
+            writeln!(decode, "                let {}: {} = svrt::arg(vp_args_, {n}).map_err(svrt::harness_err)?;", a.name, a.ty.rust(&gens, &assoc_conc)).unwrap();
+        }
+        let vals: Vec<String> = h.args.iter().map(|a| a.name.clone()).collect();
+        let helper = helper_ident(&h.name);
+        let mk_proxy = format!("                let vp_p_: {proxy} = {sv}::multitest::Proxy::new(vp_c_.clone(), vp_app_);\n");
+        match h.kind {
+            Kind::Exec => {
+                writeln!(s, "            g.exec.insert(\"{}\".to_string(), Box::new(|vp_app_, vp_c_, vp_args_, vp_funds_, vp_sender_| {{", h.id).unwrap();
+                s.push_str(&decode);
+                s.push_str(&mk_proxy);
+                writeln!(s, "                <{proxy} as {tr}>::{helper}(&vp_p_, {}).with_funds(vp_funds_).call(vp_sender_).map_err(|e| svrt::ErrView::view(&e))", vals.join(", ")).unwrap();
+                writeln!(s, "            }}));").unwrap();
+            }
+            Kind::Query => {
+                writeln!(s, "            g.query.insert(\"{}\".to_string(), Box::new(|vp_app_, vp_c_, vp_args_| {{", h.id).unwrap();
+                s.push_str(&decode);
+                s.push_str(&mk_proxy);
+                writeln!(s, "                <{proxy} as {tr}>::{helper}(&vp_p_, {}).map(|r| svrt::j(&r)).map_err(|e| svrt::ErrView::view(&e))", vals.join(", ")).unwrap();
+                writeln!(s, "            }}));").unwrap();
+            }
+            Kind::Sudo => {
+                writeln!(s, "            g.sudo.insert(\"{}\".to_string(), Box::new(|vp_app_, vp_c_, vp_args_| {{", h.id).unwrap();
+                s.push_str(&decode);
+                s.push_str(&mk_proxy);
+                writeln!(s, "                <{proxy} as {tr}>::{helper}(&vp_p_, {}).map_err(|e| svrt::ErrView::view(&e))", vals.join(", ")).unwrap();
+                writeln!(s, "            }}));").unwrap();
+            }
+            Kind::Migrate => {
+                writeln!(s, "            g.migrate = Some(Box::new(|vp_app_, vp_c_, vp_args_, vp_sender_, vp_code_| {{").unwrap();
+                s.push_str(&decode);
+                s.push_str(&mk_proxy);
+                writeln!(s, "                <{proxy} as {tr}>::{helper}(&vp_p_, {}).call(vp_sender_, vp_code_).map_err(|e| svrt::ErrView::view(&e))", vals.join(", ")).unwrap();
+                writeln!(s, "            }}));").unwrap();
+            }
+            _ => {}
+        }
+    }
+    writeln!(s, "            Box::new(svrt::World::<{c}, {q}>::new(g, vp_bal_)) as Box<dyn svrt::MtWorld>").unwrap();
+    writeln!(s, "        }})));").unwrap();
 }
